@@ -262,7 +262,19 @@ inductive V6Out where
 def setBits (wantBits : Bool) (old : Option Nat) (v : Nat) : Option Nat :=
   if wantBits then some v else old
 
-def v6Loop (s : Bytes) (wantBits allowTrailing : Bool) : Nat → V6 → M V6Out
+/-- fix_pton_cidr.diff (only when `fx`): a "::" after seven parts stands for the eighth; the
+    second colon is then skipped right away so that the empty part between the colons does
+    not use up the last slot.  C: `if ((ii == 7) && (input[pos + 1] != ':') &&
+    !ct_isxdigit(input[pos + 1])) part_start = input + ++pos;` — returns the new `pos`. -/
+def skipSecondColon (fx : Bool) (s : Bytes) (ii pos : Nat) : M Nat :=
+  if fx && ii == 7 then do
+    let c2 ← rd s (pos + 1)
+    if c2 != 58 && !isHexDigit c2 then pure (pos + 1) else pure pos
+  else pure pos
+
+/-- The `while (ii < 8) switch (input[pos])` loop.  `fx = false` is the parser of the pinned
+    snapshot, `fx = true` the parser after fix_pton_cidr.diff (candidate repair of F26). -/
+def v6Loop (fx : Bool) (s : Bytes) (wantBits allowTrailing : Bool) : Nat → V6 → M V6Out
   | 0, _ => throw (.fuel "irc_pton")
   | fuel + 1, st =>
     if st.ii ≥ 8 then pure (.finish st) else do
@@ -270,7 +282,7 @@ def v6Loop (s : Bytes) (wantBits allowTrailing : Bool) : Nat → V6 → M V6Out
     if isHexDigit c then
       let part := st.part * 16 + xdigitVal c          -- (part << 4) | ct_xdigit_val(c)
       if part > 0xffff then return .fail { st with pos := st.pos + 1, part := part }
-      v6Loop s wantBits allowTrailing fuel { st with pos := st.pos + 1, part := part }
+      v6Loop fx s wantBits allowTrailing fuel { st with pos := st.pos + 1, part := part }
     else if c == 58 then
       let pos := st.pos + 1
       let c1 ← rd s pos
@@ -280,10 +292,11 @@ def v6Loop (s : Bytes) (wantBits allowTrailing : Bool) : Nat → V6 → M V6Out
       if c1 == 58 then
         if st.cpos < 8 then
           return .fail { st with pos := pos, partStart := some pos, addr := addr, ii := ii, part := 0 }
-        v6Loop s wantBits allowTrailing fuel
+        let pos ← skipSecondColon fx s ii pos
+        v6Loop fx s wantBits allowTrailing fuel
           { st with pos := pos, partStart := some pos, addr := addr, ii := ii, part := 0, cpos := ii }
       else
-        v6Loop s wantBits allowTrailing fuel
+        v6Loop fx s wantBits allowTrailing fuel
           { st with pos := pos, partStart := some pos, addr := addr, ii := ii, part := 0 }
     else if c == 46 then
       match st.partStart with
@@ -369,14 +382,14 @@ def isV6Text (s : Bytes) : Bool :=
   | some _, none => true
   | none, _ => false
 
-def pton (input : Bytes) (wantBits allowTrailing : Bool) : M PtonRes := do
+def ptonWith (fx : Bool) (input : Bytes) (wantBits allowTrailing : Bool) : M PtonRes := do
   let s := input
   let pos ← skipSpace s (s.length + 1) 0
   if isV6Text s then
     match ← v6Start s pos with
     | none => return { ret := 0, addr := Addr.zero, bits := none }
     | some st0 =>
-      match ← v6Loop s wantBits allowTrailing (s.length + 2) st0 with
+      match ← v6Loop fx s wantBits allowTrailing (s.length + 2) st0 with
       | .fail st => return { ret := 0, addr := st.addr, bits := st.bits }
       | .ret st => return { ret := st.pos, addr := st.addr, bits := st.bits }
       | .finish st =>
@@ -404,6 +417,12 @@ def pton (input : Bytes) (wantBits allowTrailing : Bool) : M PtonRes := do
       let (pos, _) ← scan s isStar keep (s.length + 1) pos 0
       ptonTail s allowTrailing pos Addr.zero (setBits wantBits none 0)
     else ptonTail s allowTrailing pos Addr.zero none
+
+/-- `irc_pton` as it is in the repository now (F26 not repaired) -/
+def pton (input : Bytes) (wantBits allowTrailing : Bool) : M PtonRes := ptonWith false input wantBits allowTrailing
+
+/-- `irc_pton` after fix_pton_cidr.diff -/
+def ptonFixed (input : Bytes) (wantBits allowTrailing : Bool) : M PtonRes := ptonWith true input wantBits allowTrailing
 
 /-! ### irc_check_mask -/
 
